@@ -988,9 +988,10 @@ class VM:
         # Convert to numbers for numeric comparison
         a_num = to_number(a)
         b_num = to_number(b)
-        # Handle NaN - any comparison with NaN returns false, we return 1
+        # An operand that is NaN makes every relational operator false: NaN itself
+        # is neither <, <=, > nor >= 0, so the four callers need no special case
         if math.isnan(a_num) or math.isnan(b_num):
-            return 1  # NaN comparisons are always false
+            return float("nan")
         if a_num < b_num:
             return -1
         if a_num > b_num:
